@@ -436,6 +436,7 @@ fn gen_world(r: &mut Rng) -> World {
             }
         }
     };
+    let mut inside: Vec<Vec<u8>> = Vec::new();
     let mut level: Vec<usize> = vec![0];
     let mut parent: Vec<Option<usize>> = vec![None];
     paths.push(fresh_path(r, &paths));
@@ -449,7 +450,21 @@ fn gen_world(r: &mut Rng) -> World {
                 if paths.len() >= 14 {
                     break;
                 }
-                let np = fresh_path(r, &paths);
+                // sometimes the alternate lives INSIDE the directory that names it, under a name that makes the
+                // relative entry start with an unusual byte: `#pool` (must be quoted, and is NOT a comment),
+                // a space, a quote, a backslash, a control or non-ASCII byte
+                let np = if r.chance(1, 4) {
+                    const INSIDE: &[&[u8]] = &[b"#pool", b"#", b" sp", b" ", b"\"q", b"bs\\", b"\xc3\xa9", b"-dash", b"~t", b"\x01c", b"\xffz", b"#a b"];
+                    let cand = [&paths[p][..], b"/", *r.pick(INSIDE)].concat();
+                    if paths.contains(&cand) {
+                        fresh_path(r, &paths)
+                    } else {
+                        inside.push(cand.clone());
+                        cand
+                    }
+                } else {
+                    fresh_path(r, &paths)
+                };
                 paths.push(np);
                 level.push(lv);
                 parent.push(Some(p));
@@ -563,7 +578,7 @@ fn gen_world(r: &mut Rng) -> World {
                 c.extend_from_slice(t);
                 c.extend_from_slice(b"\n");
             }
-            let mut text = match r.below(5) {
+            let mut text = match if inside.contains(t) && r.chance(5, 6) { 2 } else { r.below(5) } {
                 0 | 1 => t.clone(),
                 2 | 3 => relpath(&paths[i], t),
                 _ => {
@@ -637,6 +652,18 @@ fn fixed_worlds() -> Vec<World> {
         ),
         // comment + blank + quoted
         w("tree", "/R/r/objects", &[("/R/r/objects", Some(b"# c\n\n\"/R/t\\tb/objects\"\n")), ("/R/t\tb/objects", None)]),
+        // a quoted entry whose unquoted form starts with `#` is an entry, not a comment; escapes and octal
+        w(
+            "tree",
+            "/R/r/objects",
+            &[
+                ("/R/r/objects", Some(b"\"#pool\"\n\" sp\"\n\"q\\\"t\\\\x\\303\\251\"\n")),
+                ("/R/r/objects/#pool", Some(b"\"#\"\n")),
+                ("/R/r/objects/#pool/#", None),
+                ("/R/r/objects/ sp", None),
+                ("/R/r/objects/q\"t\\xé", None),
+            ],
+        ),
         // two-node cycle, relative
         w("cycle", "/R/s/a", &[("/R/s/a", Some(b"/R/s/b")), ("/R/s/b", Some(b"../a"))]),
         // self reference
